@@ -256,5 +256,43 @@ theorem centroid_real (l : Loop ℝ) (hc : l.closed = true) :
   rw [V3.mk.injEq]
   refine ⟨?_, ?_, ?_⟩ <;> congr 1
 
+/-! ## the perimeter: non-negative, translation invariant -/
+
+/-- the perimeter sum of `setPerimeter_real` -/
+def perim (vs : List (V3 ℝ)) : ℝ :=
+  ((List.range vs.length).map (fun k => (fetch vs k - fetch vs (k + 1)).length)).sum
+
+theorem length_nonneg' (v : V3 ℝ) : 0 ≤ v.length := by
+  unfold V3.length; exact Real.sqrt_nonneg _
+
+theorem perim_nonneg (vs : List (V3 ℝ)) : 0 ≤ perim vs := by
+  unfold perim
+  apply List.sum_nonneg
+  intro x hx
+  obtain ⟨k, _, rfl⟩ := List.mem_map.1 hx
+  exact length_nonneg' _
+
+theorem fetch_translate (vs : List (V3 ℝ)) (t : V3 ℝ) (i : Nat) (h : 0 < vs.length) :
+    fetch (vs.map (· + t)) i = fetch vs i + t := by
+  unfold fetch
+  have hi : i % vs.length < vs.length := Nat.mod_lt _ h
+  simp only [List.length_map]
+  simp only [List.getD_eq_getElem?_getD, List.getElem?_map, List.getElem?_eq_getElem hi, Option.map_some, Option.getD_some]
+
+/-- **the perimeter does not change when the loop is translated** -/
+theorem perim_translation (vs : List (V3 ℝ)) (t : V3 ℝ) : perim (vs.map (· + t)) = perim vs := by
+  rcases Nat.eq_zero_or_pos vs.length with h0 | hpos
+  · have : vs = [] := List.length_eq_zero_iff.1 h0
+    subst this; rfl
+  · unfold perim
+    simp only [List.length_map]
+    congr 1
+    apply List.map_congr_left
+    intro k _
+    rw [fetch_translate vs t k hpos, fetch_translate vs t (k + 1) hpos]
+    congr 1
+    vec_real
+    refine ⟨?_, ?_, ?_⟩ <;> ring
+
 end
 end G3d.C10
